@@ -1,4 +1,4 @@
-import sys; sys.path.insert(0,'/verif')
+import sys, os; sys.path.insert(0, os.path.dirname(os.path.dirname(os.path.abspath(__file__))))
 from vf import run
 r=run.run_unit(sys.argv[1])
 print(r.status, r.verified, r.errors, r.wall, r.tool_errors[:5])
